@@ -10,8 +10,11 @@
 // delimited by close} x {complete / fewer bytes than declared then FIN or RST
 // (also right behind the headers) / silence in mid-body until the client's
 // timeout / trickling body}, or no response at all {hang past the client
-// timeout, reset after reading, reset before reading}. Points carry (case, series, seq) in the name
-// and (series, seq) in value and timestamp, so an acknowledged POST names the
+// timeout, reset after reading, reset before reading}. A POST counts as
+// acknowledged when the server, having decoded it, sent a 2xx status line -
+// whatever becomes of the response body; every other outcome is a failure and
+// the batch must come again. Points carry (case, series, seq) in the name and
+// (series, seq) in value and timestamp, so an acknowledged POST names the
 // hand-offs it contained. The monitors then ask:
 //   - is every accepted metric in a POST that was answered 2xx (bounded quiescence)?
 //   - per series: is the order of first acknowledgement the dispatch order?
